@@ -923,14 +923,23 @@ fn parents(
 ) -> Vec<anyhow::Result<SignedEntry>> {
     let mut res = Vec::new();
 
+    // Deletion markers (empty entries) are included: they supersede older entries below their key
+    // just like any other entry.
     while !key.is_empty() {
-        let entry = get_exact(table, namespace, author, &key, false);
+        let entry = get_exact(table, namespace, author, &key, true);
         key.pop();
         match entry {
             Err(err) => res.push(Err(err)),
             Ok(Some(entry)) => res.push(Ok(entry)),
             Ok(None) => continue,
         }
+    }
+    // The empty key is a prefix of every key.
+    let entry = get_exact(table, namespace, author, &key, true);
+    match entry {
+        Err(err) => res.push(Err(err)),
+        Ok(Some(entry)) => res.push(Ok(entry)),
+        Ok(None) => {}
     }
     res.reverse();
     res
